@@ -101,9 +101,9 @@ class Gen:
             return "(- %s)" % self.nterm(depth - 1)
         if k < 0.8:
             return "(ite %s %s %s)" % (self.formula(depth - 1), self.nterm(depth - 1), self.nterm(depth - 1))
-        if k < 0.88 and self.nfuns:
+        if k < 0.86 and self.nfuns:
             return "(h %s)" % self.nterm(depth - 1)
-        if k < 0.95 and self.num == "Int" and self.divmod:
+        if k < 0.97 and self.num == "Int" and self.divmod:
             d = r.choice([2, 3, 4, 5, 7, -2, -3, -5])
             return "(%s %s %s)" % (r.choice(["div", "mod"]), self.nterm(depth - 1), self.lit(d))
         if self.num == "Real":
@@ -201,7 +201,7 @@ def gen_script(rng, logic=None, incremental=False, options=(), produce_models=Tr
             return "(= %s %s)" % (rng.choice(g.uvars), g.uterm(2))
         if k < 0.55:
             b = rng.choice(g.boolvars)
-            return rng.choice([b, "(not %s)" % b, "(= %s %s)" % (b, g.formula(2))])
+            return rng.choice([b, "(not %s)" % b, "(= %s %s)" % (b, g.formula(2)), "false", "(and %s (not %s))" % (b, b)])
         if k < 0.75 and g.usort and len(g.uvars) >= 3:
             vs = [rng.choice(g.uvars) for _ in range(4)]
             x, w, y, z = vs
